@@ -395,6 +395,10 @@ class FunctionEngine(CallsMixin, Engine):
                     val = cv if cv.loc is not None else self.new_cell(st, want, self.as_term(cv, st))
                 elif val.loc is None:
                     val = self.new_cell(st, want, val.t)
+                elif repr(val.ty) != repr(want):
+                    # same sort, the declared type only names the class of the referenced objects (Ref -> Ref[C]):
+                    # the declaration is what field accesses on the elements are resolved with
+                    val = V(want, val.t, val.loc)
             else:
                 val = self.coerce(val, want, st)
         elif val.ty.is_container and val.ty.args and val.ty.args[0].kind == 'Bottom' and val.ty.kind in ('Set', 'Dict'):
